@@ -99,10 +99,24 @@ def build_frame(panel, scale=1.0, rename=None, date_shift=0, permute=True, id_in
     rows_d.append(dates[di].strftime('%Y-%m-%d') if panel.get('date_str') else dates[di])
     rows_g.append(present_id(name, as_int and all(x.isdigit() for x in (rename.values() if rename else panel['ids']))))
     rows_v.append((float(vals[gi][di]) + delta) * scale)
+  for di, delta in panel.get('orphan_rows', []):
+    # rows without a geo ID (e.g. a national total exported next to the per-geo rows): they belong to no geo
+    if not as_int:
+      di = di % panel['n_dates']
+      rows_d.append(dates[di].strftime('%Y-%m-%d') if panel.get('date_str') else dates[di])
+      rows_g.append(None)
+      rows_v.append(float(1000 + delta) * scale)
   df = pd.DataFrame({'date': rows_d, 'geo': rows_g, panel['resp_col']: rows_v})
   if panel.get('resp_int') and scale == 1.0 and not df[panel['resp_col']].isna().any() and (df[panel['resp_col']] % 1 == 0).all() \
       and df[panel['resp_col']].abs().max() < 2 ** 62:
     df[panel['resp_col']] = df[panel['resp_col']].astype('int64')
+  if panel.get('date_cat') and len(df):
+    cats = sorted(set(df['date']))
+    if isinstance(cats[-1], str):
+      later = [(pd.Timestamp(cats[-1]) + pd.Timedelta(days=k)).strftime('%Y-%m-%d') for k in (1, 2)]
+    else:
+      later = [cats[-1] + pd.Timedelta(days=k) for k in (1, 2)]
+    df['date'] = pd.Categorical(df['date'], categories=cats + later, ordered=True)
   if panel.get('resp_dtype') in ('Float64', 'Int64'):
     # pandas nullable dtypes (Int64 only when the values are whole numbers)
     col = df[panel['resp_col']]
@@ -126,7 +140,7 @@ def build_frame(panel, scale=1.0, rename=None, date_shift=0, permute=True, id_in
   ro = panel.get('row_order')
   if permute and ro:
     # rows as a database export would deliver them: sorted, but not by (geo, ascending date)
-    key_g = df['geo'].astype(str)
+    key_g = df['geo'].map(lambda v: 'zzzz' if (v is None or v != v) else str(v))
     if ro == 'geo-asc-date-desc':
       order = sorted(range(len(df)), key=lambda i: (key_g.iloc[i], -pd.Timestamp(df['date'].iloc[i]).value))
     elif ro == 'geo-asc-date-perm':
@@ -320,11 +334,12 @@ class Space:
         par[k] = int(par[k])               # 7.0 means 7
     self.par = types.SimpleNamespace(**par)
     # R1: canonical table
-    geos = [str(g) for g in df['geo'].tolist()]
+    raw_g = df['geo'].tolist()
+    geos = [str(g) for g in raw_g]
     dates = df['date'].tolist()
     vals = [float('nan') if v is None or v is pd_NA() else float(v) for v in df[resp_col].tolist()]
-    # a row whose value is missing (NaN) is a missing cell, exactly like an absent row
-    keep = [i for i, v in enumerate(vals) if v == v]
+    # a row whose value is missing (NaN) is a missing cell, exactly like an absent row; a row without a geo ID belongs to no geo
+    keep = [i for i, v in enumerate(vals) if v == v and raw_g[i] is not None and raw_g[i] is not pd_NA() and raw_g[i] == raw_g[i]]
     geos, dates, vals = [geos[i] for i in keep], [dates[i] for i in keep], [vals[i] for i in keep]
     self.geos = sorted(set(geos))
     self.dates = sorted(set(dates))
